@@ -54,6 +54,12 @@ def plan(ctx):
                               bounds="concrete received set, symbolic shard bytes (2-byte shards); unwind 66", flags=FULL, timeout=1200, mem_gb=8,
                               stubs=["core::slice::specialize::SpecFill::spec_fill -> stubs::stub_spec_fill"] if m.get("stub") else [],
                               symbolic="bytes of every given shard", tiers=("quick", "thorough") if m["name"] in quick else ("thorough",)))
+        elif m["kind"] == "adds_after_reset":
+            a = m["a"]
+            hs.append(Harness(f"gen::c06g::{m['name']}", "C06",
+                              f"{m['codec']} configured ({a[0]},{a[1]}) with originals {a[2]:b} / recovery {a[3]:b} added and no decode, then a valid reset to ({m['k']},{m['r']}): the next 3 arbitrary add calls (unbounded symbolic indexes) are Ok iff no precondition is violated, exactly as on a fresh decoder",
+                              encodes=ADD_ENC + ["DecoderWork::reset", "FixedBitSet::clear/grow"], bounds="one history shape per harness; index 64-bit symbolic; unwind 20",
+                              flags=FULL, timeout=900, mem_gb=6, symbolic="kind, index, length, bytes of each call"))
         elif m["kind"] == "enc_calls":
             hs.append(Harness(f"gen::c06g::{m['name']}", "C06",
                               f"{m['codec']} ({m['k']},{m['r']}): {m['good']} valid adds, one add of wrong length {m['len']} (Err truthful), surplus add -> TooManyOriginalShards, encode Ok iff all originals given else TooFewOriginalShards exact",
